@@ -116,24 +116,25 @@ Proof. exact (reduce_only_sums n m). Qed.
 Print Assumptions C15_reduce_only_sums.
 
 (* (8) System() vs probe arguments *)
-Theorem C15_args_equal_system (pops : bool) (base : icfg) (m : option (R * option R)) (w : option C)
+Theorem C15_args_equal_system (base : icfg) (m : option (R * option R)) (w : option C)
   (x : list R) (l : list pstate) :
-  fst (acquire pops base (mkOpts m w) (mkSys None None) x l) =
-  fst (acquire pops base (mkOpts None None) (mkSys m w) x l).
-Proof. exact (args_equal_system pops base m w x l). Qed.
+  fst (acquire base (mkOpts m w) (mkSys None None) x l) =
+  fst (acquire base (mkOpts None None) (mkSys m w) x l).
+Proof. exact (args_equal_system base m w x l). Qed.
 Print Assumptions C15_args_equal_system.
 
-(* (9) repeated use of one probe instance: stable when options are read, refuted when they are popped
-   (finding switch [pops]: the behaviour of probe.py 203/206 on the pinned tree) *)
+(* (9) repeated use of one probe instance: the second acquisition equals the first and the probe keeps its
+   options (the option-popping defect of probe.py found by this check is repaired in /repo; the repeated-use
+   stream of props/c15.py is the regression test) *)
 Theorem C15_repeated_use_stable (base : icfg) (o : popts) (sys : psystem) (x : list R) (l : list pstate) :
-  let '(v1, v2) := acquire2 false base o sys x l in v1 = v2.
+  let '(v1, v2) := acquire2 base o sys x l in v1 = v2.
 Proof. exact (repeated_use_stable base o sys x l). Qed.
 Print Assumptions C15_repeated_use_stable.
 
-Theorem C15_repeated_use_refuted :
-  exists base o sys x l, let '(v1, v2) := acquire2 true base o sys x l in v1 <> v2.
-Proof. exact repeated_use_refuted. Qed.
-Print Assumptions C15_repeated_use_refuted.
+Theorem C15_acquire_keeps_options (base : icfg) (o : popts) (sys : psystem) (x : list R) (l : list pstate) :
+  snd (acquire base o sys x l) = o.
+Proof. exact (acquire_keeps_options base o sys x l). Qed.
+Print Assumptions C15_acquire_keeps_options.
 
 (* non-vacuity: the hypotheses of (2) hold for a concrete state list *)
 Example C15_nonvacuous :
